@@ -147,6 +147,9 @@ pub struct Config {
     /// a simulator decision).
     #[serde(default)]
     pub timeout_set: bool,
+    /// The time-out is set through `Simulation::set_timeout` after `init` instead of `SimInit::set_timeout`.
+    #[serde(default)]
+    pub timeout_late: bool,
     /// Fault T: the n-th blocking `park_timeout` times out.
     #[serde(default)]
     pub timeout_at_block: Option<u32>,
@@ -288,6 +291,9 @@ pub enum Op {
     /// Builds, runs and drops a small single-threaded simulation inside the handler (a
     /// simulation nested in a model).
     Nested { models: u8 },
+    /// Keeps the step busy until the executor's timed wait has elapsed (no-op unless a step
+    /// time-out is in force and has not elapsed yet): an overrunning step.
+    HoldUntilTimeout,
 }
 
 #[derive(Clone, Copy, Debug, Serialize, Deserialize, PartialEq)]
